@@ -684,3 +684,109 @@ func VerifC08_dbg(v *VerifV) {
 	s.SetState(verifAddr(0), verifSlot(0), verifVal(1))
 	s.IntermediateRoot(false)
 }
+
+// ---- J5: reads return what was written (independent reference) ---------------------------------
+
+type verifRefAcct struct {
+	exists    bool
+	bal       *big.Int
+	nonce     uint64
+	code      []byte
+	storage   [2]cmn.Hash
+	committed [2]cmn.Hash // value at the start of the current transaction (last Finalise)
+}
+
+func (r verifRefAcct) clone() verifRefAcct {
+	c := r
+	c.bal = new(big.Int).Set(r.bal)
+	return c
+}
+
+// VerifC08_J5: an independent reference (plain variables, copied on Snapshot, restored on
+// Revert) is kept next to the StateDB for histories of writes, snapshots/reverts, Finalise,
+// IntermediateRoot and Commit-then-reopen (no account deletion): after every step every read of
+// the account (existence, balance, nonce, code, each slot, each committed slot) returns what the
+// reference says, i.e. the last value written and not reverted.
+func VerifC08_J5(v *VerifV) {
+	verifV = v
+	ns, K := 2, v.Param("K")
+	a := verifAddr(0)
+	db := verifNewDB()
+	pre := verifPre{tier: v.Choice("pre-state", 4)}
+	ref := verifRefAcct{bal: new(big.Int)}
+	if pre.tier != 0 {
+		pre.bal = []*big.Int{v.Big("pre-balance", 64)}
+		pre.nonce = []uint64{v.U64("pre-nonce")}
+		pre.code = []bool{false}
+		ref = verifRefAcct{exists: true, bal: new(big.Int).Set(pre.bal[0]), nonce: pre.nonce[0]}
+		ref.storage[0] = verifVal(1)
+		if pre.tier >= 2 {
+			ref.committed[0] = verifVal(1)
+		}
+	}
+	s := verifBuild(v, pre, db, 1)
+	type snap struct {
+		id  int
+		ref verifRefAcct
+	}
+	var live []snap
+	check := func() {
+		v.Assert(s.Exist(a) == ref.exists, "C08.read.existence")
+		v.Assert(s.GetBalance(a).Cmp(ref.bal) == 0, "C08.read.balance")
+		v.Assert(s.GetNonce(a) == ref.nonce, "C08.read.nonce")
+		v.Assert(bytes.Equal(s.GetCode(a), ref.code), "C08.read.code")
+		for k := 0; k < ns; k++ {
+			v.Assert(s.GetState(a, verifSlot(k)) == ref.storage[k], "C08.read.storage-not-last-written")
+			v.Assert(s.GetCommittedState(a, verifSlot(k)) == ref.committed[k], "C08.read.committed-storage")
+		}
+	}
+	check()
+	for step := 0; step < K; step++ {
+		switch v.Choice("op", 7) {
+		case 0:
+			val := v.Choice("value", 3)
+			s.SetState(a, verifSlot(0), verifVal(val))
+			ref.storage[0], ref.exists = verifVal(val), true
+			v.Cover("set-state")
+		case 1:
+			amt := v.Big("amount", 64)
+			v.Assume(amt.Sign() != 0)
+			s.AddBalance(a, amt)
+			ref.bal, ref.exists = new(big.Int).Add(ref.bal, amt), true
+		case 2:
+			live = append(live, snap{s.Snapshot(), ref.clone()})
+		case 3:
+			if len(live) == 0 {
+				return
+			}
+			i := v.Choice("revert-to", len(live))
+			s.RevertToSnapshot(live[i].id)
+			ref = live[i].ref
+			live = live[:i]
+			v.Cover("reverted")
+		case 4:
+			s.Finalise(false)
+			ref.committed = ref.storage
+			live = live[:0]
+			v.Cover("finalised")
+		case 5:
+			s.IntermediateRoot(false)
+			ref.committed = ref.storage
+			live = live[:0]
+		case 6:
+			root, err := s.Commit(false)
+			v.Assert(err == nil, "C08.commit.error")
+			ns2, err := New(root, db, nil)
+			v.Assert(err == nil && ns2 != nil, "C08.readback.cannot-open-committed-root")
+			if ns2 == nil {
+				return
+			}
+			s = ns2
+			ref.committed = ref.storage
+			live = live[:0]
+			v.Cover("reopened")
+		}
+		check()
+	}
+	v.Assert(s.Error() == nil, "C08.db-error")
+}
